@@ -77,6 +77,16 @@ CHECKS['C09'] = dict(
          'sweep over an 8-letter alphabet backs each contract and serves as vacuity witness.',
     design='DESIGN.md section 2 C09')
 
+CHECKS['C10'] = dict(
+    engine='crosshair',
+    technique='CrossHair symbolic execution (z3) of the real resolveArguments with symbolic characters in a producer name; counterexamples replayed natively',
+    text='The real ComponentSpecification.resolveArguments runs on a subclass overriding only data-providing properties; one producer name '
+         '(<=2 symbolic characters) is set against the representatives A, AB, A1 in both spellings, both declaration orders, option prefixes, '
+         'output references and the same name in two stages. Bug-hunting strength (CrossHair does not exhaust these conditions); the '
+         'substring-replacement defect it finds is a listed known finding.',
+    note='DataReference.resolve stubbed to a distinct token per reference; is_raw=True (fill_in skipped); native sweep over a 6-letter alphabet.',
+    design='DESIGN.md section 2 C10')
+
 NOT_APPLICABLE = {
     'C07': 'round trip through the real file system, PyYAML (C) and Experiment construction: nothing on the path can be made symbolic; the technique would degenerate to example testing',
     'C15': 'quantifies over processes with different hash seeds / directory listing orders, which are not values inside one symbolic execution',
